@@ -84,6 +84,7 @@ type constInfo struct {
 // numType describes a (possibly refined) numeric type.
 type numType struct {
 	bits   uint
+	signed bool
 	lo, hi num // inclusive range incl. refinement
 }
 
@@ -232,9 +233,17 @@ func needDerivedVar(f *a.Func, name t.ID) bool {
 		o.Walk(func(q *a.Node) error {
 			switch q.Kind() {
 			case a.KExpr:
-				recv, meth, _, ok := q.AsExpr().IsMethodCall()
+				recv, meth, margs, ok := q.AsExpr().IsMethodCall()
 				if ok && recv.IsArgsDotFoo() == name && meth != t.IDIsClosed {
 					found = true
+				}
+				// internal/cgen/var.go: the reader argument of limited_copy_u32_from_reader
+				if ok && meth == t.IDLimitedCopyU32FromReader && recv.MType() != nil && recv.MType().IsIOType() {
+					for _, ma := range margs {
+						if ma.AsArg().Value().IsArgsDotFoo() == name {
+							found = true
+						}
+					}
 				}
 			case a.KIOManip:
 				if q.AsIOManip().IO().IsArgsDotFoo() == name {
@@ -271,9 +280,6 @@ func (p *Program) CGenIssues() []string {
 		if fi == nil {
 			continue
 		}
-		if fi.invalidC {
-			add("pub-noncoroutine-result-with-checked-arg")
-		}
 		if fi.pub && fi.out != nil && fi.out.IsBool() {
 			add("pub-func-returning-bool")
 		}
@@ -283,12 +289,8 @@ func (p *Program) CGenIssues() []string {
 			}
 			e := q.AsExpr()
 			switch e.Operator() {
-			case t.IDXBinaryTildeSatPlus, t.IDXBinaryTildeSatMinus:
-				if mt := e.MType(); mt != nil && mt.IsSmallInteger() {
-					add("binary-sat-on-small-integer")
-				}
 			case t.IDOpenParen:
-				recv, meth, args, ok := e.IsMethodCall()
+				recv, meth, _, ok := e.IsMethodCall()
 				if !ok || recv.MType() == nil {
 					return nil
 				}
@@ -299,10 +301,6 @@ func (p *Program) CGenIssues() []string {
 				case recv.MType().IsIOType() && e.Effect().Coroutine() &&
 					strings.HasPrefix(name, "write_u") && name != "write_u8":
 					add("writer-question-method")
-				case recv.MType().IsIOType() && name == "limited_copy_u32_from_reader" && len(args) == 2:
-					if id := args[1].AsArg().Value().IsArgsDotFoo(); id != 0 && !fi.derivedArgs[id] {
-						add("io-arg-only-used-as-builtin-arg")
-					}
 				}
 			}
 			return nil
@@ -335,11 +333,24 @@ func (p *Program) numTypeOf(typ *a.TypeExpr) *numType {
 			nt.bits = 32
 		case t.IDU64:
 			nt.bits = 64
+		case t.IDI8:
+			nt.bits, nt.signed = 8, true
+		case t.IDI16:
+			nt.bits, nt.signed = 16, true
+		case t.IDI32:
+			nt.bits, nt.signed = 32, true
+		case t.IDI64:
+			nt.bits, nt.signed = 64, true
 		default:
 			nt = nil
 		}
-		if nt != nil {
+		if nt != nil && nt.signed {
+			nt.hi = nU(maxOfBits(nt.bits - 1))
+			nt.lo = nI(-1 << (nt.bits - 1))
+		} else if nt != nil {
 			nt.hi = nU(maxOfBits(nt.bits))
+		}
+		if nt != nil {
 			if x := typ.Min(); x != nil && x.ConstValue() != nil {
 				nt.lo = nBig(x.ConstValue())
 			}
